@@ -151,6 +151,10 @@ func c08Run(c *Ctx, capSec int) {
 	add("ok-n2-ttl4294967295", "ok-ttl-2^32-1", 0.3, 1.3, 2.3, 6.5, 9.5)
 	add("nx-ttl2", "nx-ttl2", 0.3, 1.2, 5.3)
 	add("nx-ttl60", "nx-ttl60", 0.3, 1.3, 5.3, 9.3)
+	// negative answers whose SOA lives long and whose other authority record (an NSEC-like proof) only 3 s
+	add("nx-ttl600-nsttl3", "nx-short-proof", 0.3, 1.2, 6.4, 7.6)
+	add("nodata-ttl600-nsttl3", "nodata-short-proof", 0.3, 1.2, 6.4, 7.6)
+	add("nodata-ttl4", "nodata-ttl4", 0.3, 1.2, 7.4)
 	add("rc9", "rc9", 0.3, 2.2, 8.3)
 	add("servfail", "servfail-reply", 0.2, 4.3, 8.6)
 	add("empty", "empty", 0.3, 1.3, 5.3, 9.3)
